@@ -598,9 +598,12 @@ def main(run):
         chunks.append((cond, 2, 2))
     if not q:
         for cond in CONDITIONS:
+            # three workers: two preemptions, but one where every worker also writes the bootstrap page (that tree has more
+            # than 100,000 schedules per slice with two)
+            b3 = 2 if cond["bootstrap"] else 1
             for k in range(8):     # eight slices of each search tree (see explore)
                 chunks.append((cond, 2, 3, (k, 8)))
-                chunks.append((cond, 3, 2, (k, 8)))
+                chunks.append((cond, 3, b3, (k, 8)))
     # biggest first: slice 0 of a tree holds the root's deepest alternatives
     chunks.sort(key=lambda c: (len(c) > 3 and c[3][0] != 0, -c[1], -c[2]))
     done = 0
@@ -627,7 +630,7 @@ def main(run):
                 "plus, for every condition, three worker PROCESSES run one after the other (with the preparing context still open where the condition says so); "
                 "a state is a distinct tuple (next operation and status of every worker) seen at a scheduling point, a transition a "
                 "distinct (state, chosen worker); every schedule is an execution of the real code on a fresh copy of the database "
-                "directory; prefix replay divergence is a hard error" % ("" if q else "; N=2 with <= 3; N=3 with <= 2"),
+                "directory; prefix replay divergence is a hard error" % ("" if q else "; N=2 with <= 3; N=3 with <= 2 (<= 1 under the conditions without the bootstrap page)"),
         "free_running_failures(evidence only)": free,
         "exhaustive": True,
         "bound": "preemptions <= %d" % (2 if q else 3),
